@@ -129,6 +129,14 @@ func init() {
 func deref(info *types.Info, e ast.Expr) ast.Expr {
 	for i := 0; i < 3; i++ {
 		e = ast.Unparen(e)
+		if call, isCall := e.(*ast.CallExpr); isCall {
+			// a call of a new helper whose whole body is `return <expr>` stands for that expression
+			if body := helperReturnExpr(info, call); body != nil {
+				e = body
+				continue
+			}
+			return e
+		}
 		id, ok := e.(*ast.Ident)
 		if !ok {
 			return e
@@ -318,4 +326,22 @@ func derefObj(info *types.Info, e ast.Expr) types.Object {
 		return info.Defs[id]
 	}
 	return prog.IdentObj(info, e)
+}
+
+// helperReturnExpr: call is a static call of a new (non-baseline) same-module helper whose
+// body consists of a single return of one expression; that expression is returned.
+func helperReturnExpr(info *types.Info, call *ast.CallExpr) ast.Expr {
+	p := curProg
+	if p == nil {
+		return nil
+	}
+	fi := p.FuncInfoOf(p.CalleeFunc(info, call))
+	if !isNewHelper(p, fi) || len(fi.Decl.Body.List) != 1 {
+		return nil
+	}
+	ret, ok := fi.Decl.Body.List[0].(*ast.ReturnStmt)
+	if !ok || len(ret.Results) != 1 {
+		return nil
+	}
+	return ret.Results[0]
 }
